@@ -1,6 +1,7 @@
 import RxnModel.Proofs.Pipeline
 import RxnModel.Proofs.PipelineInv
 import RxnModel.Proofs.PipelineReplay
+import RxnModel.Proofs.PipelineCross
 /-!
 # C01 — end-to-end exactly-once state semantics of the pipeline under failures, restarts and repartitioning
 
@@ -19,7 +20,8 @@ key `k`; `idxOf sp l` the indices of split `sp` in it; `projI k sp q` the indice
 channel `q`; `routed cfg k sp c` the indices `< c` of split `sp` with key `k`; `foldLog cfg k l` the fold of the
 handler over a log; `Consistent`, `CkptOK`, `Quiescent` as defined there.
 The inductive invariant is `Inv` in `Proofs/PipelineInv.lean`; the failure-free replay of a key's log is in
-`Proofs/PipelineReplay.lean`.
+`Proofs/PipelineReplay.lean`; the single-channel delivery order used by `single_witness_counterexample` (why the
+failure-free witness is per key) is in `Proofs/PipelineCross.lean`.
 
 **Partial (finding D39, open).** `redeployLive n'` models the code as it is when a deployment's assembly contains a
 node process that is still alive: the channels are *not* discarded. Every property theorem below is proved for
@@ -215,6 +217,20 @@ which is a failure (`kill` / `restart`) at whose end the key's owner holds exact
 for the key: whatever failures, restarts and repartitionings happened, every key's state is a state of a
 failure-free execution over the same input. (The witness run contains no live redeploy either.)
 
+**Per key is the strongest form that holds with rescaling.** The witness run depends on `k`. The stronger
+statement with ONE failure-free run (on the final worker count `s.n`) that reproduces the logs of *all* keys
+simultaneously is **false** as soon as the worker count changes: on fewer workers, several splits of one runner
+feeding several keys of one operator share a single FIFO channel, which fixes one arrival order for all of these
+keys, whereas before the rescaling the keys sat behind different channels and could each see the splits in a
+different relative order. `crossRun` below (2 workers → 1 worker, no live redeploy, checkpoint published, final state
+quiescent) ends with `log 0 1 = [(0,1),(1,0)]` and `log 0 2 = [(1,1),(0,0)]`; `single_witness_counterexample`
+proves that no deployment on 1 worker followed by non-failure actions produces both logs, and
+`failure_free_all_keys_counterexample` states this as the negation of the all-keys form for that reachable state.
+What is order-independent does hold for all keys at once: per key and split the log is the split's records of the
+key in index order, each once (`exactly_once_inv_partial`, `no_loss_no_dup_partial`), and every state is the fold
+of the handler over its key's log (`handler_state_eq_partial`); only the *interleaving of different splits* within
+a key is per key.
+
 FULL statement (not proved; false for the code as it is, see `redeploy_live_counterexample`: no failure-free run
 applies a record twice):
 
@@ -303,5 +319,101 @@ example : (run demoCfg [.restart 2 false, .read 1, .redeployLive 1, .deliver 1 1
 /-- with a deployment onto fresh processes instead (`restart`), the same schedule is not even enabled: the stale
 record is gone, the second delivery finds an empty channel -/
 example : run demoCfg [.restart 1 false, .read 0, .restart 1 false, .read 0, .deliver 0 0, .deliver 0 0] = none := rfl
+
+
+/-! ## why the failure-free witness is per key: rescaling crosses the shared channels -/
+
+/-- two splits whose first two records carry the keys 1 and 2 crosswise: split 0 = `[k2, k1, …]`,
+split 1 = `[k1, k2, …]` (everything else has key 7). On 2 workers split `sp` is read by runner `sp`, key 1 lives on
+operator 1 and key 2 on operator 0; on 1 worker everything is on runner 0 / operator 0. The handler state is the
+list of records it has seen. -/
+def crossCfg : Cfg (List (Nat × Nat)) :=
+  { key := fun sp i => match sp, i with
+      | 0, 0 => 2 | 0, 1 => 1 | 1, 0 => 1 | 1, 1 => 2 | _, _ => 7
+    route := fun n k => k % n, assign := fun n sp => sp % n, init := [],
+    h := fun s e => s ++ [(e.split, e.idx)] }
+
+theorem crossCfg_wf : crossCfg.WF :=
+  ⟨fun _ k hn => Nat.mod_lt k hn, fun _ sp hn => Nat.mod_lt sp hn⟩
+
+/-- deploy on **2** workers; both records of both splits are read (four channels, one record each); operator 1
+(key 1) takes `(0,1)` from runner 0 and then `(1,0)` from runner 1, operator 0 (key 2) takes `(1,1)` from
+runner 1 and then `(0,0)` from runner 0 — each is the head of its own channel; a checkpoint is taken and
+published; redeploy on **1** worker. -/
+def crossRun : List Act :=
+  [.restart 2 false, .read 0, .read 0, .read 1, .read 1,
+   .deliver 0 1, .deliver 1 1, .deliver 1 0, .deliver 0 0,
+   .start, .barrier 0, .barrier 1, .opCkpt 0, .opCkpt 1, .publish 0, .restart 1 false]
+
+/-- the run is enabled to the end -/
+example : (run crossCfg crossRun).isSome = true := rfl
+/-- it contains no live redeploy (it is a run of the `_partial` theorems) -/
+example : crossRun.all (fun a => !a.isLiveRedeploy) = true := rfl
+/-- on 2 workers, before the checkpoint: the two keys are at different operators -/
+example : (run crossCfg (crossRun.take 9)).map (fun x => (x.1.n, x.1.log 1 1, x.1.log 0 2)) =
+    some (2, [(0, 1), (1, 0)], [(1, 1), (0, 0)]) := rfl
+/-- at the end: 1 worker, both splits read up to 2, nothing in flight (only the channels inside the deployment
+can hold records), and operator 0 holds both keys with exactly these two logs -/
+example : (run crossCfg crossRun).map (fun x => (x.1.n, x.1.cursor 0, x.1.cursor 1, x.1.log 0 1, x.1.log 0 2,
+      (List.range x.1.n).all fun r => (List.range x.1.n).all fun o => (x.1.queue r o).all fun y => y == Item.bar)) =
+    some (1, 2, 2, [(0, 1), (1, 0)], [(1, 1), (0, 0)], true) := rfl
+
+/-- **No single failure-free witness for all keys.** No run that deploys `crossCfg` on 1 worker and then takes only
+non-failure actions ends with key 1 having seen `(0,1)` before `(1,0)` *and* key 2 having seen `(1,1)` before
+`(0,0)` — the two logs at the end of `crossRun`. On one worker all four records go through the single FIFO
+channel `0 → 0` in the order they were read, each split is read in index order, so the first of the four to be
+delivered is `(0,0)` or `(1,0)`: but `(0,0)` is not the first record of key 2 and `(1,0)` not the first of key 1
+(`Proofs/PipelineCross.lean`: `Cross`, `cross_cycle`). Each of the two logs *alone* is reproduced by a
+failure-free run on 1 worker (`failure_free_realizable_partial`; explicitly below). -/
+theorem single_witness_counterexample :
+    ¬ ∃ (as' : List Act) (s' : State (List (Nat × Nat))) (obs' : List (Given (List (Nat × Nat)))),
+      as'.head? = some (Act.restart 1 false) ∧ (∀ a ∈ as'.tail, a.isFailure = false) ∧
+      run crossCfg as' = some (s', obs') ∧ s'.log 0 1 = [(0, 1), (1, 0)] ∧ s'.log 0 2 = [(1, 1), (0, 0)] := by
+  rintro ⟨as', s', obs', hh, hf, hr, h1, h2⟩
+  refine cross_no_single_witness crossCfg crossCfg_wf rfl rfl ?_ as' s' obs' hh hf hr h1 h2
+  intro sp i hsp
+  match sp, hsp with
+  | sp + 2, _ =>
+    have h7 : crossCfg.key (sp + 2) i = 7 := rfl
+    rw [h7]
+    exact ⟨by decide, by decide⟩
+
+/-- the per-key witnesses on 1 worker: key 1 wants split 0 first, key 2 wants split 1 first -/
+example : (run crossCfg [.restart 1 false, .read 0, .read 0, .read 1, .deliver 0 0, .deliver 0 0, .deliver 0 0]).map
+    (fun x => x.1.log 0 1) = some [(0, 1), (1, 0)] := rfl
+example : (run crossCfg [.restart 1 false, .read 1, .read 1, .read 0, .deliver 0 0, .deliver 0 0, .deliver 0 0]).map
+    (fun x => x.1.log 0 2) = some [(1, 1), (0, 0)] := rfl
+
+/-- **Counterexample to the all-keys form of `failure_free_realizable`**: the state at the end of `crossRun`
+(reachable without live redeploy, deployed on 1 worker, nothing in flight) is not the state of any run consisting
+of one deployment on the same worker count followed by non-failure actions that agrees with it on the log of
+*every* key at the key's owner. -/
+theorem failure_free_all_keys_counterexample :
+    ∃ s obs, run crossCfg crossRun = some (s, obs) ∧ (∀ a ∈ crossRun, a.isLiveRedeploy = false) ∧ 0 < s.n ∧
+      Quiescent s ∧
+      ¬ ∃ as' s' obs', run crossCfg as' = some (s', obs') ∧ as'.head? = some (Act.restart s.n false) ∧
+        (∀ a ∈ as'.tail, a.isFailure = false) ∧ s'.n = s.n ∧
+        ∀ k, s'.log (crossCfg.route s.n k) k = s.log (crossCfg.route s.n k) k := by
+  have hsome : (run crossCfg crossRun).isSome = true := rfl
+  obtain ⟨⟨s, obs⟩, h⟩ := Option.isSome_iff_exists.1 hsome
+  have h2 : (run crossCfg crossRun).map (fun x => (x.1.n, x.1.log 0 1, x.1.log 0 2,
+      (List.range x.1.n).all fun r => (List.range x.1.n).all fun o => (x.1.queue r o).all fun y => y == Item.bar)) =
+      some (1, [(0, 1), (1, 0)], [(1, 1), (0, 0)], true) := rfl
+  rw [h] at h2
+  simp only [Option.map_some, Option.some.injEq, Prod.mk.injEq] at h2
+  obtain ⟨hn, hl1, hl2, hchk⟩ := h2
+  have hlive : ∀ a ∈ crossRun, a.isLiveRedeploy = false := by decide
+  refine ⟨s, obs, h, hlive, by omega, ?_, ?_⟩
+  · exact quiescent_of_check crossCfg crossCfg_wf s (inv_run crossCfg crossCfg_wf crossRun s obs hlive h)
+      (by omega) hchk
+  · rintro ⟨as', s', obs', hr, hh, hf, _, hk⟩
+    rw [hn] at hh hk
+    have k1 := hk 1
+    have k2 := hk 2
+    have e1 : crossCfg.route 1 1 = 0 := rfl
+    have e2 : crossCfg.route 1 2 = 0 := rfl
+    rw [e1, hl1] at k1
+    rw [e2, hl2] at k2
+    exact single_witness_counterexample ⟨as', s', obs', hh, hf, hr, k1, k2⟩
 
 end Rxn.C01
